@@ -130,6 +130,11 @@ pub(crate) struct LiveEvents<'a> {
     open_depth: usize,
     /// A syntax error met while skipping the rest of a failed document; returned by the next pull.
     pending_error: Option<Error>,
+    /// The budget breach of the current document once it has been reported, with its location.
+    /// As for a reader failure, whoever received it may have chosen to go on (a best-effort
+    /// `Deserialize` impl that skips what it cannot read): the document is over its budget all
+    /// the same, and every later pull and `finish` report the breach again.
+    budget_breach: Option<(crate::budget::BudgetBreach, Location)>,
 }
 
 /// A single alias-replay stack frame (one active `*alias` expansion).
@@ -209,6 +214,7 @@ impl<'a> LiveEvents<'a> {
             delivered: 0,
             open_depth: 0,
             pending_error: None,
+            budget_breach: None,
         }
     }
 }
@@ -263,6 +269,7 @@ impl<'a> LiveEvents<'a> {
             delivered: 0,
             open_depth: 0,
             pending_error: None,
+            budget_breach: None,
         }
     }
 
@@ -377,6 +384,7 @@ impl<'a> LiveEvents<'a> {
             if let Some(ref mut budget) = self.budget
                 && let Err(breach) = budget.observe(&raw)
             {
+                self.budget_breach = Some((breach.clone(), location));
                 return Err(budget_error(breach).with_location(location));
             }
 
@@ -689,9 +697,11 @@ impl<'a> LiveEvents<'a> {
             }
         };
 
-        budget
-            .observe(&raw)
-            .map_err(|breach| budget_error(breach).with_location(ev.location()))
+        if let Err(breach) = budget.observe(&raw) {
+            self.budget_breach = Some((breach.clone(), ev.location()));
+            return Err(budget_error(breach).with_location(ev.location()));
+        }
+        Ok(())
     }
 
     /// Record an event into active recording frames.
@@ -772,7 +782,10 @@ impl<'a> LiveEvents<'a> {
     pub(crate) fn finish(&mut self) -> Result<(), Error> {
         self.io_error()?;
         if let Some(budget) = self.budget.take() {
-            let report = budget.finalize();
+            let mut report = budget.finalize();
+            if let Some((breach, _)) = self.budget_breach.take() {
+                report.breached = Some(breach);
+            }
             if let Some(callback) = self.budget_report {
                 callback(&report);
             }
@@ -785,6 +798,18 @@ impl<'a> LiveEvents<'a> {
             }
         }
         Ok(())
+    }
+
+    /// A reader failure or budget breach that has been reported before: reported again.
+    #[inline]
+    fn reported_failure(&self) -> Result<(), Error> {
+        self.io_error()?;
+        match &self.budget_breach {
+            Some((breach, location)) => {
+                Err(budget_error(breach.clone()).with_location(*location))
+            }
+            None => Ok(()),
+        }
     }
 
     #[cold]
@@ -807,7 +832,7 @@ impl<'de> Events<'de> for LiveEvents<'de> {
     /// Get the next event, using a single-item lookahead buffer if present.
     /// Updates last_location to the yielded event's location.
     fn next(&mut self) -> Result<Option<Ev<'de>>, Error> {
-        self.io_error()?;
+        self.reported_failure()?;
 
         if let Some(ev) = self.look.take() {
             self.last_location = ev.location();
@@ -822,7 +847,7 @@ impl<'de> Events<'de> for LiveEvents<'de> {
     }
     /// Peek at the next event without consuming it, filling the lookahead buffer if empty.
     fn peek(&mut self) -> Result<Option<&Ev<'de>>, Error> {
-        self.io_error()?;
+        self.reported_failure()?;
 
         if self.look.is_none() {
             self.look = self.next_impl()?;
@@ -882,8 +907,12 @@ impl<'a> LiveEvents<'a> {
     ///   alias limits); its value stands;
     /// - a target that stopped inside its document (a root type that swallowed an error of its
     ///   inner type, say) would leave the rest to be taken for further documents: the rest is
-    ///   read and the document fails.
+    ///   read and the document fails;
+    /// - a target that was shown a reader failure or a budget breach and went on regardless
+    ///   must not have its value handed out: the failure is returned instead.
     pub(crate) fn complete_document(&mut self, delivered_before: u64) -> Result<(), Error> {
+        // A reader failure or budget breach that the target chose to ignore.
+        self.reported_failure()?;
         if self.delivered == delivered_before {
             let _ = self.next()?;
             while self.open_depth > 0 && self.next()?.is_some() {}
@@ -922,6 +951,8 @@ impl<'a> LiveEvents<'a> {
         self.inject.clear();
         self.rec_stack.clear();
         self.open_depth = 0;
+        // The breach of the document that is being left behind has been reported.
+        self.budget_breach = None;
 
         // After a reader error the rest of the input is not what the reader meant to deliver
         // (the failed read left a hole that the parser saw as end of input): stop here rather
